@@ -412,7 +412,7 @@ func TestC05(t *testing.T) {
 		prog := singleOp(j.op, kinds, j.n)
 		nConst := 1
 		if len(cidx) > 0 {
-			nConst = r.Pick(6, 47)
+			nConst = r.Pick(6, 16)
 		}
 		for ci := 0; ci < nConst; ci++ {
 			consts := make([]*big.Int, a)
@@ -463,12 +463,12 @@ func TestC05(t *testing.T) {
 						}
 					}
 				}
-				attack(r, rng, s, j.f, in, r.Pick(6, 40))
+				attack(r, rng, s, j.f, in, r.Pick(6, 16))
 			}
 		}
 	})
 	// short random programs
-	nProg := r.Pick(150, 3000)
+	nProg := r.Pick(150, 1500)
 	vcore.Parallel(nProg, 14, func(i int) {
 		rng := r.Rand(fmt.Sprintf("prog/%d", i))
 		f := fields[i%len(fields)]
